@@ -242,7 +242,24 @@ def oracle(ctx, deep):
         sched = ['A', 'B'] + [rng.randrange(2) for _ in range(rng.randrange(4, 16))]
         rng.shuffle(sched)
         noise = None if k % 2 == 0 else (0.15, 0.15)
-        f, _ = run_schedule(ctx, rng.getrandbits(32), ta, tb, sched, noise=noise)
+        recs = []
+        wseed = rng.getrandbits(32)
+        f, _ = run_schedule(ctx, wseed, ta, tb, sched, noise=noise, recorders=recs)
+        # RFC 7296 2.25 on the answers the real handlers gave (independent statement of the rules)
+        for _, r2 in recs:
+            for inp, code in r2.calls:
+                if inp[0] == 1:
+                    _, st, rk, found, sd, sr = inp
+                    want = 43 if st in (13, 15) else (44 if rk and not found else
+                                                      (43 if rk and ((st == 14 and sd) or (st == 12 and sr)) else 0))
+                else:
+                    want = 43 if inp[1] != 10 else 0
+                if want != code and not (want == 0 and code in (43, 44) and False):
+                    f.append(Failure('property', 'collision:wrong-answer',
+                                     f'{ta}@A x {tb}@B {sched}: CREATE_CHILD_SA request in state {inp[1]} '
+                                     f'(rekey={inp[2] if inp[0] == 1 else "ike"}) answered with notify {code}, RFC 7296 2.25 '
+                                     f'requires {want}', {'seed': wseed, 'ta': ta, 'tb': tb, 'schedule': sched, 'noise': noise,
+                                                          'collision': inp}))
         ctx.case({'walk': [ta, tb], 'schedule': sched, 'noise': noise}, nontrivial=True)
         ctx.count('walk:' + ('noisy' if noise else 'lossless'))
         fails += f
